@@ -131,7 +131,7 @@ def maps_occ(idx, A, B):
     return bool(np.all(g == B.occ))
 
 
-def check_result(A, B, g, mapping):
+def check_result(A, B, g, mapping, use_eq=True):
     """direct evaluation of the contract of equivalencemap; -> None or message"""
     if not any(g is h for h in A.G): return "returned operation is not an element of the supercell group"
     idx = g.indexmap[0]
@@ -143,7 +143,9 @@ def check_result(A, B, g, mapping):
             if not (0 <= j < len(ca)) or idx[ca[j]] != cb[k]:
                 return "ordering: other.chemorder[%d][%d] != g(self.chemorder[%d][mapping[%d][%d]])" % (c, k, c, c, k)
     try:
-        if not ((g * A).reorder(mapping) == B): return "(g*self).reorder(mapping) != other"
+        T = (g * A).reorder(mapping)
+        if state(T) != state(B): return "(g*self).reorder(mapping) does not have the occupation and ordering of other"
+        if use_eq and not (T == B): return "(g*self).reorder(mapping) != other"
     except Exception as e:
         return "(g*self).reorder(mapping) raised %r" % (e,)
     return None
@@ -243,17 +245,24 @@ def run(ck):
     jobs = []
     skipped = {"irrational-geometry": 0, "too-large": 0, "construct-failed": 0}
     stats = {"operations_checked": 0, "pairs_related": 0, "pairs_unrelated_same_counts": 0, "pairs_different_counts": 0,
-             "pairs_defect_free": 0, "pairs_same_name": 0, "history_steps": 0, "answers_none": 0, "answers_found": 0, "unrelated_but_equivalent": 0}
+             "pairs_defect_free": 0, "pairs_respelled": 0, "pairs_same_name": 0, "history_steps": 0, "answers_none": 0, "answers_found": 0, "unrelated_but_equivalent": 0}
     cells = 0
     for label, crys, chem in gen.pool(rng, 4 * ncells, dims=(3,), random_frac=0.5, maxatoms=2):
         if cells >= ncells: break
         if not all(isinstance(nm, str) for nm in crys.chemistry):   # addbasis() default names (see C28 finding) - rename
             crys = crystal.Crystal(crys.lattice, crys.basis, chemistry=[str(x) for x in crys.chemistry])
-        sl = sclib.random_superlatt(rng, maxdet=ck.n(4, 8))
+        if cells == 3:
+            # always: FCC host with octahedral (species 1) and tetrahedral (species 2) interstitial sublattices
+            f0 = crystal.Crystal.FCC(1., chemistry="M")
+            f1 = f0.addbasis(f0.Wyckoffpos(np.array([.5, .5, .5])), chemistry=["O"])
+            crys = f1.addbasis(f1.Wyckoffpos(np.array([.25, .25, .25])), chemistry=["T"])
+            label, chem = "fcc+oct+tet", 1
+        sl = sclib.random_superlatt(rng, maxdet=ck.n(4, 8) if cells != 3 else 2)
         size = abs(int(round(np.linalg.det(sl))))
         if crys.N * size > ck.n(24, 40) or len(crys.G) * size > ck.n(400, 800):
             skipped["too-large"] += 1; continue
         inter = tuple(c for c in range(crys.Nchem) if crys.Nchem > 1 and c == chem and rng.random() < 0.6)
+        if cells == 3: inter = (1, 2)
         ns = rng.choice([0, 1, 1, 2])
         # the first cells of every run have two solutes that SHARE a name: undefined (both ''), given equal names, or one named
         # like a host species -- the name-keyed defect sets then cannot tell the species apart, the occupation arrays can
@@ -332,13 +341,30 @@ def run(ck):
                     cc.nomap.append("nomapb Gall %s %s" % (a, b)); cc.meta["nomap"].append(rep)
             else:
                 stats["answers_found"] += 1
-                msg = check_result(A, B, g2, m2)
+                msg = check_result(A, B, g2, m2, use_eq=not pairkind.endswith("respelled"))
                 if msg: violation("c27-equivmap-unsound", "%s: %s (%s pair)" % (label, msg, pairkind), rep)
                 if not brute: violation("c27-equivmap-unsound", "%s: an operation was returned but none maps the occupations" % label, rep)
                 cc.equiv.append("equivb %s %s %s %s && permb %d %s && invb %d %d %s" %
                                 (zl(g2.indexmap[0]), zll(m2), a, b, N, zl(g2.indexmap[0]), N, sup.Nchem, a))
                 cc.meta["equiv"].append(rep)
             return brute
+
+        # a second supercell object built SEPARATELY with the same interstitial set spelled differently (list instead of tuple,
+        # reversed order): same sites, same operations, same defect names -- equivalence must not depend on the spelling
+        sup_alt = None
+        if inter:
+            with warnings.catch_warnings():
+                warnings.simplefilter("ignore")
+                sup_alt = supercell.Supercell(crys, sl.copy(), interstitial=list(reversed(inter)), Nsolute=ns)
+            sup_alt.chemistry = list(sup.chemistry)
+            if np.abs(sup_alt.pos - sup.pos).max() > 1e-12:
+                violation("c27-respelled-sites", "%s: supercells built with interstitial=%r and %r have different sites" % (label, inter, list(reversed(inter))), dict(cfg=spec))
+                sup_alt = None
+
+        def respell(B):
+            T = sup_alt.copy()
+            T.occ = B.occ.copy(); T.chemorder = [list(l) for l in B.chemorder]
+            return T
 
         stats["pairs_defect_free"] += 1
         add_pair(sup.copy(), sup.copy(), "defect-free")
@@ -350,6 +376,10 @@ def run(ck):
             B.reorder([rng.sample(range(len(l)), len(l)) for l in B.chemorder])
             stats["pairs_related"] += 1
             add_pair(A, B, "related")
+            if sup_alt is not None:
+                stats["pairs_respelled"] += 1
+                add_pair(A, respell(B), "related-respelled")
+                add_pair(respell(A), B, "related-respelled")
             B2 = same_kind_defects(rng, sup, kinds)
             if B2 is not None:
                 stats["pairs_unrelated_same_counts"] += 1
@@ -456,6 +486,8 @@ def run(ck):
                 add_pair(H, target, "history")      # soundness / completeness on the live object, also through the Coq checkers
         jobs.append((cc, Gidx, lab, geo, spec))
 
+    if stats["pairs_respelled"] == 0:
+        violation("c27-generator-precondition", "no supercell with an interstitial sublattice could be built (fixed fcc+oct+tet cell included)", dict(cells=cells))
     # ---- run the verified checkers on everything collected ---------------------------------------
     def work(job):
         cc, Gidx, lab, geo, spec = job
